@@ -9,7 +9,9 @@ import Univers.Vers.Spec
 namespace Univers.Openssl
 
 open Std
-open Univers.Semver (natCmp charCmp strCmp strCmp_eq_iff lexList_eq_iff charCmp_eq_iff)
+open Univers.Semver (natCmp charCmp strCmp strCmp_eq_iff lexList_eq_iff charCmp_eq_iff
+  natStr parseNat isDigitStr splitOn isPySpace natStr_digits natStr_ne_nil
+  parseNat_natStr isDigitStr_natStr splitOn_append_sep splitOn_no_sep)
 
 namespace Legacy
 
@@ -216,6 +218,129 @@ theorem construct_ok_or_invalid (s : List Char) :
   | none => right; rfl
   | some v => left; exact ⟨v, rfl⟩
 
+/-! ### C11: printing round-trips -/
+
+def coreStr (r : Raw) : List Char := natStr r.major ++ '.' :: (natStr r.minor ++ '.' :: natStr r.build)
+
+/-- the values `parse` can return -/
+def WellFormed (r : Raw) : Prop :=
+  (legacyBases.any fun b => b.isPrefixOf (coreStr r)) = true ∧
+  (∀ c ∈ r.patch, isPySpace c = false ∧ c ≠ '.') ∧
+  (r.patch ≠ [] → r.build < 10 ∧ ∀ c ∈ r.patch.head?, c.isDigit = false)
+
+instance (r : Raw) : Decidable (WellFormed r) := by unfold WellFormed; infer_instance
+
+theorem str_eq (r : Raw) :
+    str r = natStr r.major ++ '.' :: (natStr r.minor ++ '.' :: (natStr r.build ++ r.patch)) := by
+  simp [str, List.append_assoc]
+
+theorem dot_notin_natStr (n : Nat) : '.' ∉ natStr n := by
+  intro h; exact absurd (natStr_digits n '.' h) (by decide)
+
+theorem splitOn_str (r : Raw) (h : ∀ c ∈ r.patch, c ≠ '.') :
+    splitOn '.' (str r) = [natStr r.major, natStr r.minor, natStr r.build ++ r.patch] := by
+  rw [str_eq, splitOn_append_sep '.' _ _ (dot_notin_natStr _),
+    splitOn_append_sep '.' _ _ (dot_notin_natStr _), splitOn_no_sep]
+  intro hm
+  rw [List.mem_append] at hm
+  rcases hm with hm | hm
+  · exact dot_notin_natStr _ hm
+  · exact h '.' hm rfl
+
+theorem prefix_str (r : Raw) (h : WellFormed r) :
+    (legacyBases.any fun b => b.isPrefixOf (str r)) = true := by
+  obtain ⟨b, hb, hp⟩ := List.any_eq_true.mp h.1
+  refine List.any_eq_true.mpr ⟨b, hb, ?_⟩
+  rw [List.isPrefixOf_iff_prefix] at hp ⊢
+  have : str r = coreStr r ++ r.patch := by simp [str_eq, coreStr, List.append_assoc]
+  rw [this]
+  exact hp.trans (List.prefix_append _ _)
+
+theorem parse_str (r : Raw) (h : WellFormed r) : parse (str r) = .ok (some r) := by
+  have hdot : ∀ c ∈ r.patch, c ≠ '.' := fun c hc => (h.2.1 c hc).2
+  unfold parse
+  rw [prefix_str r h, splitOn_str r hdot]
+  simp only [Bool.not_true, Bool.false_eq_true, if_false, pyInt, isDigitStr_natStr, if_true,
+    bind, Except.bind, parseNat_natStr]
+  cases hp : r.patch with
+  | nil =>
+    simp only [List.append_nil, isDigitStr_natStr, if_true, parseNat_natStr]
+    cases r; simp_all
+  | cons p0 ps =>
+    have h3 := h.2.2 (by rw [hp]; simp)
+    have hb : natStr r.build = [r.build.digitChar] := Semver.natStr_lt_ten h3.1
+    have hp0 : p0.isDigit = false := h3.2 p0 (by rw [hp]; simp)
+    have hnd : isDigitStr ([r.build.digitChar] ++ p0 :: ps) = false := by
+      simp [isDigitStr, hp0]
+    rw [hb, hnd]
+    have hd : isDigitStr [r.build.digitChar] = true := by rw [← hb]; exact isDigitStr_natStr _
+    have hv : parseNat [r.build.digitChar] = r.build := by rw [← hb]; exact parseNat_natStr _
+    simp only [Bool.false_eq_true, if_false, List.cons_append, List.nil_append, List.drop_succ_cons,
+      List.drop_zero, hd, if_true, hv, hp0]
+    cases r; simp_all
+
+
+theorem normalize_of (s : List Char) (h1 : ∀ c ∈ s, isPySpace c = false)
+    (h2 : ∀ c ∈ s.head?, c.isDigit = true) : Semver.normalize s = s := by
+  have hf : Semver.removeSpaces s = s := by
+    unfold Semver.removeSpaces
+    rw [List.filter_eq_self]
+    intro c hc; simp [h1 c hc]
+  unfold Semver.normalize
+  rw [hf]
+  cases s with
+  | nil => rfl
+  | cons c cs =>
+    have hc : c.isDigit = true := h2 c (by simp)
+    have h' := Char.isDigit_iff_toNat.mp hc
+    simp only [Char.reduceToNat] at h'
+    have hv : (c == 'v' || c == 'V') = false := by
+      simp only [Bool.or_eq_false_iff, beq_eq_false_iff_ne, ne_eq]
+      constructor <;> (intro e'; subst e'; simp at h')
+    simp [Semver.lstripV, hv]
+
+theorem digit_not_space {c : Char} (h : c.isDigit = true) : isPySpace c = false :=
+  Semver.identChar_not_space (Semver.digit_identChar h)
+
+theorem normalize_str (r : Raw) (h : WellFormed r) : Semver.normalize (str r) = str r := by
+  apply normalize_of
+  · intro c hc
+    rw [str_eq] at hc
+    simp only [List.mem_append, List.mem_cons] at hc
+    rcases hc with hc | hc | hc | hc | hc | hc
+    · exact digit_not_space (natStr_digits _ c hc)
+    · subst hc; decide
+    · exact digit_not_space (natStr_digits _ c hc)
+    · subst hc; decide
+    · exact digit_not_space (natStr_digits _ c hc)
+    · exact (h.2.1 c hc).1
+  · intro c hc
+    rw [str_eq] at hc
+    cases e : natStr r.major with
+    | nil => exact absurd e (natStr_ne_nil _)
+    | cons x xs =>
+      rw [e] at hc
+      simp only [List.cons_append, List.head?_cons, Option.mem_def, Option.some.injEq] at hc
+      subst hc
+      exact natStr_digits r.major x (by simp [e])
+
+/-- C11 on the well-formed values: `LegacyOpensslVersion(str(v)).value == v.value` -/
+theorem str_roundtrip (r : Raw) (h : WellFormed r) : construct (str r) = .ok r := by
+  simp [construct, isValid, normalize_str r h, parse_str r h, bind, Except.bind]
+
+example : WellFormed ⟨1, 0, 1, ['a']⟩ := by decide
+example : WellFormed ⟨1, 0, 10, []⟩ := by decide
+
+/-- DEFECT (C11): `LegacyOpensslVersion("1.0.05")` is accepted (`startswith("1.0.0")`), its value
+is `(1, 0, 5, '')`, it prints as `1.0.5`, and `LegacyOpensslVersion("1.0.5")` is an
+`InvalidVersion`: printing does not round-trip, the constructor does not establish
+`WellFormed`.  (Same for `OpensslVersion`.) -/
+theorem str_roundtrip_counterexample :
+    construct "1.0.05".toList = .ok ⟨1, 0, 5, []⟩ ∧
+    str ⟨1, 0, 5, []⟩ = "1.0.5".toList ∧
+    construct "1.0.5".toList = .error .invalid := by
+  refine ⟨?_, ?_, ?_⟩ <;> rfl
+
 end Legacy
 
 /-! ## `openssl` -/
@@ -308,5 +433,96 @@ theorem eq_imp_hash (a b : Raw) : verOps.eq a b = true → hashKey a = hashKey b
         have h' : Semver.verOps.eq a b = true := h
         simpa [Semver.verOps, Py.attrsOps, Semver.valOps_eq_iff] using h'
       rw [this]
+
+/-! ### C11 for `OpensslVersion` -/
+
+/-- well-formed values: a well-formed legacy value, or a SemVer-valid value with major ≥ 3 -/
+def WellFormed : Raw → Prop
+  | .legacy v => Legacy.WellFormed v
+  | .modern v => Semver.WellFormed v ∧ 3 ≤ v.major
+
+instance (r : Raw) : Decidable (WellFormed r) := by
+  cases r <;> unfold WellFormed <;> infer_instance
+
+/-- `0.Y.Z` / `1.Y.Z` -/
+def baseLead : List Char → Bool
+  | x :: '.' :: _ => x == '0' || x == '1'
+  | _ => false
+
+theorem legacyBases_lead : ∀ b ∈ Legacy.legacyBases, baseLead b = true := by decide
+
+/-- a string that starts with the decimal numeral of a number ≥ 2 followed by a dot does not
+start with any legacy base version -/
+theorem no_base_prefix (m : Nat) (hm : 2 ≤ m) (rest : List Char) :
+    (Legacy.legacyBases.any fun b => b.isPrefixOf (natStr m ++ '.' :: rest)) = false := by
+  cases e : Legacy.legacyBases.any fun b => b.isPrefixOf (natStr m ++ '.' :: rest)
+  · rfl
+  · exfalso
+    obtain ⟨b, hb, hp⟩ := List.any_eq_true.mp e
+    have hl := legacyBases_lead b hb
+    unfold baseLead at hl
+    split at hl
+    · rename_i x t
+      obtain ⟨u, hu⟩ := List.isPrefixOf_iff_prefix.mp hp
+      cases en : natStr m with
+      | nil => exact absurd en (natStr_ne_nil m)
+      | cons c cs =>
+        rw [en] at hu
+        simp only [List.cons_append, List.cons.injEq] at hu
+        obtain ⟨hxc, hrest⟩ := hu
+        cases cs with
+        | nil =>
+          have hm' : m = parseNat [c] := by rw [← en, parseNat_natStr]
+          simp only [Bool.or_eq_true, beq_iff_eq] at hl
+          rcases hl with hl | hl
+          · subst hl; subst hxc
+            have : parseNat ['0'] = 0 := by decide
+            omega
+          · subst hl; subst hxc
+            have : parseNat ['1'] = 1 := by decide
+            omega
+        | cons c2 cs2 =>
+          simp only [List.cons_append, List.cons.injEq] at hrest
+          have hd : c2.isDigit = true := natStr_digits m c2 (by simp [en])
+          rw [← hrest.1] at hd
+          exact absurd hd (by decide)
+    · cases hl
+
+theorem legacy_isValid_str (v : Legacy.Raw) (h : Legacy.WellFormed v) :
+    Legacy.isValid (Legacy.str v) = .ok true := by
+  simp [Legacy.isValid, Legacy.parse_str v h, bind, Except.bind]
+
+/-- C11 on the well-formed values: `OpensslVersion(str(v)).value == v.value` -/
+theorem str_roundtrip (r : Raw) (h : WellFormed r) : construct (str r) = .ok r := by
+  cases r with
+  | legacy v =>
+    have hn := Legacy.normalize_str v h
+    have hv := legacy_isValid_str v h
+    have hc := Legacy.str_roundtrip v h
+    simp only [construct, str, hn, isValid, isValidLegacy, hv, buildValue, hc, bind, Except.bind]
+    cases isValidNew (Legacy.str v) <;> rfl
+  | modern v =>
+    obtain ⟨hw, h3⟩ := h
+    have hn := Semver.normalize_str v hw
+    have hc := Semver.coerce_str v hw
+    have hs := Semver.str_roundtrip v hw
+    have hnew : isValidNew (Semver.str v) = true := by
+      simp [isValidNew, Semver.isValid, Semver.buildValue, hc, h3]
+    have hleg : Legacy.isValid (Semver.str v) = .ok false := by
+      have hp := no_base_prefix v.major (by omega)
+        (natStr v.minor ++ '.' :: (natStr v.patch ++ (Semver.preTail v ++ Semver.buildTail v)))
+      rw [← Semver.str_eq] at hp
+      simp [Legacy.isValid, Legacy.parse, hp, bind, Except.bind]
+    simp only [construct, str, hn, isValid, hnew, if_true, buildValue, isValidLegacy, hleg, hs,
+      liftSemver, bind, Except.bind]
+    rfl
+
+example : WellFormed (.modern ⟨3, 0, 7, ["beta".toList, "1".toList], []⟩) := by decide
+
+/-- every 3.x value the constructor returns prints to a string that constructs it again
+(the legacy branch does not: `Legacy.str_roundtrip_counterexample`) -/
+theorem modern_wellFormed_of_semver (s : List Char) (v : Semver.Raw)
+    (h : Semver.construct s = .ok v) (h3 : 3 ≤ v.major) : WellFormed (.modern v) :=
+  ⟨Semver.constructWith_wellFormed false s v h, h3⟩
 
 end Univers.Openssl
